@@ -82,16 +82,27 @@ def showOut : Out → String
   | .ok => "ok" | .skipDup => "skip:dup" | .skipNoParent => "skip:noparent" | .reject r => "reject:" ++ showRej r
   | .panic => "panic"
 
-def canonLine (st : St) : String :=
+/-- number of canonical assignments over the height range touched so far and a position-sensitive checksum -/
+def canonDigest (st : St) (gnum maxNum : Nat) : String :=
+  let lo := if gnum ≥ 2 then gnum - 2 else 0
+  let (cnt, sum) := (List.range (maxNum + 3 - lo)).foldl (fun (acc : Nat × Nat) i =>
+    let h := lo + i
+    match st.canon h with
+    | some id => (acc.1 + 1, (acc.2 + (h * 1000003 + id) * (h + 13)) % 1000000007)
+    | none => acc) (0, 0)
+  s!"cn={cnt}/{sum}"
+
+def canonLine (st : St) (maxNum : Nat) : String :=
   match st.genesis with
   | none => "nocanon"
-  | some _ =>
+  | some g =>
+    let dg := canonDigest st g.hdr.number maxNum
     match st.canon st.height with
-    | none => s!"h={st.height} head=nil"
+    | none => s!"h={st.height} head=nil {dg}"
     | some id =>
       match st.hdrs id with
-      | none => s!"h={st.height} head=nil"
-      | some s => s!"h={st.height} head={id} td={s.td}"
+      | none => s!"h={st.height} head=nil {dg}"
+      | some s => s!"h={st.height} head={id} td={s.td} {dg}"
 
 def checkDescr (d : DSt) (id : Nat) (toks : List String) : Bool :=
   match d.descr.find? (·.1 == id) with
@@ -136,7 +147,7 @@ def stepPosa (d : DSt) (toks : List String) : DSt × String :=
         let g : Hdr := ⟨id, 0, num, cb, none, diff, extra, time, gl, 0, true, true, none, .drop⟩
         let (st', o) := syncGenesis d.st g pvs
         let d' := { d with st := st', descr := (id, toks) :: d.descr, ids := id :: d.ids, maxNum := max d.maxNum num }
-        if o == .panic then (d', "panic") else (d', showOut o ++ " " ++ canonLine st')
+        if o == .panic then (d', "panic") else (d', showOut o ++ " " ++ canonLine st' d'.maxNum)
     | _, _, _, _, _, _, _, _, _ => (d, "bad-op")
   | ["hdr", id, parent, num, cb, sealTok, diff, extra, time, gl, gu, flags, basefee] =>
     match d.router, id.toNat?, parent.toNat?, num.toNat?, parseCb d cb, diff.toNat?, parseExtra d extra with
@@ -149,7 +160,7 @@ def stepPosa (d : DSt) (toks : List String) : DSt × String :=
           let h : Hdr := ⟨id, parent, num, cb, signer, diff, extra, time, gl, gu, mixZero, uncleOk, baseFee, .drop⟩
           let (st', o) := syncHeader R d.st h
           let d' := { d with st := st', descr := (id, toks) :: d.descr, ids := id :: d.ids, maxNum := max d.maxNum num }
-          if o == .panic then (d', "panic") else (d', showOut o ++ " " ++ canonLine st')
+          if o == .panic then (d', "panic") else (d', showOut o ++ " " ++ canonLine st' d'.maxNum)
       | _, _, _, _, _, _ => (d, "bad-op")
     | _, _, _, _, _, _, _ => (d, "bad-op")
   | ["junk"] => if d.router.isSome then (d, "reject:json") else (d, "bad-op")
@@ -197,7 +208,7 @@ def stepMsc (d : MSt) (toks : List String) : MSt × String :=
                            time := time, gasLimit := 30000000, gasUsed := 0, mixZero := true, uncleOk := true, baseFee := none }
           let (st', o) := Msc.syncGenesis C d.st g
           let d' := { d with st := st', descr := (id, toks) :: d.descr, ids := id :: d.ids, maxNum := max d.maxNum num }
-          (d', showOutMsc o ++ " " ++ canonLine st')
+          (d', showOutMsc o ++ " " ++ canonLine st' d'.maxNum)
       | none => (d, "bad-op")
     | _, _, _, _, _, _, _ => (d, "bad-op")
   | ["hdr", id, parent, num, cb, sealTok, diff, extra, time, flags] =>
@@ -212,7 +223,7 @@ def stepMsc (d : MSt) (toks : List String) : MSt × String :=
                            nonce := nonce }
           let (st', o) := Msc.syncHeader C d.st h
           let d' := { d with st := st', descr := (id, toks) :: d.descr, ids := id :: d.ids, maxNum := max d.maxNum num }
-          if o == .panic then (d', "panic") else (d', showOutMsc o ++ " " ++ canonLine st')
+          if o == .panic then (d', "panic") else (d', showOutMsc o ++ " " ++ canonLine st' d'.maxNum)
       | _, _, _ => (d, "bad-op")
     | _, _, _, _, _, _, _ => (d, "bad-op")
   | ["state"] => if d.cfg.isSome then (d, showState d.asD) else (d, "bad-op")
